@@ -79,35 +79,36 @@ theorem dataOf_chtimes (fs : FS) (file : Bytes) (t : Int) (m : Bytes) : dataOf (
   · subst hm; cases fs.get m <;> simp
   · simp [hm]
 
+theorem used_cases (fs : FS) (now : Int) (file : Bytes) :
+    used fs now file = fs ∨ used fs now file = chtimes fs file now := by
+  cases h : fs.get file with
+  | none => simp only [used, h]; split <;> simp
+  | some f => simp only [used, h]; split <;> simp
+
 /-- `used` changes no file content and creates or removes no file. -/
 theorem dataOf_used (fs : FS) (now : Int) (file m : Bytes) : dataOf (used fs now file) m = dataOf fs m := by
-  unfold used
-  split
-  · rfl
-  · exact dataOf_chtimes _ _ _ _
+  rcases used_cases fs now file with h | h <;> rw [h]
+  exact dataOf_chtimes _ _ _ _
 
 theorem get_used_ne (fs : FS) (now : Int) (file m : Bytes) (h : m ≠ file) : (used fs now file).get m = fs.get m := by
-  unfold used
-  split
-  · rfl
-  · simp [get_chtimes, h]
+  rcases used_cases fs now file with h' | h' <;> rw [h']
+  simp [get_chtimes, h]
 
 /-- what `used` does to the file itself: the mtime stays if it is less than `mtimeInterval` old, else becomes `now`. -/
 theorem get_used_self (fs : FS) (now : Int) (file : Bytes) :
     (used fs now file).get file =
       (fs.get file).map (fun f => if Gen.Cache.usedFresh true (durSub now f.mtime) then f else { f with mtime := now }) := by
-  unfold used
   cases h : fs.get file with
   | none =>
-    simp only [Option.map_none]
+    simp only [used, h, Option.map_none]
     split
     · exact h
     · simp [get_chtimes, h]
   | some f =>
-    simp only [Option.map_some]
+    simp only [used, h, Option.map_some]
     split
-    · rename_i hf; simp [hf, h]
-    · rename_i hf; simp [hf, get_chtimes, h]
+    · simp [h]
+    · simp [get_chtimes, h]
 
 /-! ### file names -/
 
@@ -123,7 +124,7 @@ theorem fileName_mid (id : Hash) (key : Bytes) : ((fileName id key).drop 3).take
   have h1 : (hexEncode (id.val.take 1)).length = 2 := by rw [hexEncode_length, Hash.take1_length]
   have h2 := Hash.hex_length id
   rw [fileName_eq, List.drop_append, h1]
-  simp [List.take_append, h2, List.drop_eq_nil_of_le, h1]
+  simp [h2, List.drop_eq_nil_of_le, h1]
 
 theorem fileName_inj {a b : Hash} {k k' : Bytes} (h : fileName a k = fileName b k') : a = b := by
   have := congrArg (fun s => (s.drop 3).take 64) h
